@@ -464,7 +464,7 @@ int vd_tree_main(int argc, char **argv)
     hooks.malloc_fn = al_malloc; hooks.free_fn = al_free;
     cJSON_InitHooks(&hooks);
     vd_install_handlers();
-    number_cases();
+    VD.curline = (char*)"# driver-built cases: scalar accessors and number setters over the catalogue"; number_cases(); VD.curline = NULL;
     while ((len = getline(&line, &cap, stdin)) > 0 || (len < 0 && errno == EINTR && !feof(stdin) && (clearerr(stdin), 1))) {
         if (len <= 0) continue;
         char *copy; jv *v; int rc;
